@@ -71,5 +71,36 @@ class C01Mgr(MgrBase):
         return cases
 
 
+from hndbase import HndBase, Scenario
+from c10 import download_scenario
+
+
+class C01Hnd(HndBase):
+    """task side of C01: download histories on one real PeerHandler (blocks in any order, duplicated, for other pieces,
+    corrupted; chokes mid-piece; several pieces in a row), the harness as remote peer and as manager.  Every file the task
+    writes is re-hashed; at the instant a PieceDone reaches the manager side a newly written, complete, verified piece
+    file must exist (DONE-EARLY otherwise)"""
+    id = "C01"
+    coq_header = ("From Rdest Require Import Base Consts Wire Manager Handler Corr.Hnd.\nOpen Scope N_scope.\n"
+                  "Definition codes := codes01h.\n")
+    rule = ""
+
+    def corpus(self):
+        import random
+        return [self.case(Scenario(False, pl, 300 + k, download_scenario(random.Random(k), pl, 300 + k, False), "task-corpus"))
+                for k, pl in enumerate([[1], [16384], [40000, 7]])]
+
+    def gen(self, rng, tier):
+        k = {"quick": 60, "thorough": 1500, "search": 300}.get(tier, 60)
+        cases = []
+        for _ in range(k):
+            n = rng.choice([1, 2, 3])
+            plens = [rng.choice([1, 5, 16383, 16384, 16385, 20000, 32768, 40000]) for _ in range(n)]
+            seed = rng.randrange(1, 10 ** 6)
+            outgoing = rng.random() < 0.5
+            cases.append(self.case(Scenario(outgoing, plens, seed, download_scenario(rng, plens, seed, outgoing), "task-download")))
+        return cases
+
+
 PROP = C01()
-PROP.parts = [PROP, C01Mgr()]
+PROP.parts = [PROP, C01Mgr(), C01Hnd()]
